@@ -68,6 +68,10 @@ func (w *world) checkQuiescence(sc *scenario, complete bool) {
 	_, _ = w.be.Walk(func(k []byte, v interface{}, _ time.Time) error {
 		c.Assert(valid[string(k)], "foreign-key-written", "backend holds key %s which no Get was called with", keyName(k))
 
+		if tk, ok := tokenKey(v); ok {
+			c.Assert(tk == string(k), "value-under-wrong-key", "backend holds %v under key %s", v, keyName(k))
+		}
+
 		if !extDelete {
 			c.Assert(valEq(w.be.Generic(), v, last[string(k)]), "backend-not-last-write", "backend holds %v under %s, last completed write was %v", v, keyName(k), last[string(k)])
 		}
